@@ -156,10 +156,11 @@ func (s *Sim) CatchUpLagging() bool {
 			if peer.ID == n.ID || peer.App.Height() < h {
 				continue
 			}
-			sb := peer.App.blocks[h]
-			if sb == nil || sb.commit == nil {
+			blk, parts, commit := peer.App.Stored(h)
+			if blk == nil || parts == nil || commit == nil {
 				continue
 			}
+			sb := &storedBlock{blk, parts, commit}
 			n.caught[h]++
 			s.CatchUps++
 			s.logf("catchup n%d height %d from n%d", n.ID, h, peer.ID)
